@@ -660,6 +660,243 @@ def gen_down(rng, tier):
         yield vlib.Case("downuaf%d" % j, "svc=1", ops, "down-done-after")
 
 
+# --------------------------------------------------------------------------- RpcMessage wire format
+# an independent reference codec, written from the protobuf encoding documentation and rpc.proto (proto2)
+def py_varint(x):
+    out = bytearray()
+    while True:
+        if x < 128:
+            out.append(x)
+            return bytes(out)
+        out.append((x & 127) | 128)
+        x >>= 7
+
+
+def py_ser(t, mid, svc, meth, req, resp, err):
+    """fields in field-number order; None = absent"""
+    b = b"\x08" + py_varint(t) + b"\x11" + mid.to_bytes(8, "little")
+    for num, v in ((3, svc), (4, meth), (5, req), (6, resp)):
+        if v is not None:
+            b += bytes([num * 8 + 2]) + py_varint(len(v)) + v
+    if err is not None:
+        b += b"\x38" + py_varint(err)
+    return b
+
+
+class _Reject(Exception):
+    pass
+
+
+def _rd_varint(b, i, maxlen):
+    v = 0
+    for k in range(maxlen):
+        if i + k >= len(b):
+            raise _Reject()
+        v |= (b[i + k] & 127) << (7 * k)
+        if b[i + k] < 128:
+            return v, i + k + 1
+    raise _Reject()
+
+
+def _rd_len(b, i):
+    n, i = _rd_varint(b, i, 5)
+    if n >= (1 << 31) - 16 or i + n > len(b):
+        raise _Reject()
+    return b[i:i + n], i + n
+
+
+def _skip(b, i, wt, fnum, depth=0):
+    if wt == 0:
+        return _rd_varint(b, i, 10)[1]
+    if wt == 1:
+        if i + 8 > len(b):
+            raise _Reject()
+        return i + 8
+    if wt == 2:
+        return _rd_len(b, i)[1]
+    if wt == 5:
+        if i + 4 > len(b):
+            raise _Reject()
+        return i + 4
+    if wt == 3:
+        while True:
+            tag, i = _rd_varint(b, i, 5)
+            tag &= 0xffffffff
+            if tag == 0:
+                raise _Reject()
+            if tag & 7 == 4:
+                if tag >> 3 != fnum:
+                    raise _Reject()
+                return i
+            if tag >> 3 == 0:
+                raise _Reject()
+            i = _skip(b, i, tag & 7, tag >> 3, depth + 1)
+    raise _Reject()
+
+
+def _int32(v):
+    v &= 0xffffffff
+    return v - (1 << 32) if v >= (1 << 31) else v
+
+
+def py_parse(b):
+    """-> (type, id, svc, meth, req, resp, err) or None (rejected)"""
+    f = {}
+    i = 0
+    try:
+        while i < len(b):
+            tag, i = _rd_varint(b, i, 5)
+            tag &= 0xffffffff
+            fnum, wt = tag >> 3, tag & 7
+            if tag == 0 or wt == 4 or fnum == 0:
+                raise _Reject()
+            if (fnum, wt) in ((1, 0), (7, 0)):
+                v, i = _rd_varint(b, i, 10)
+                v = _int32(v & ((1 << 64) - 1))
+                if (fnum == 1 and v in (1, 2, 3)) or (fnum == 7 and 0 <= v <= 6):
+                    f[fnum] = v
+            elif (fnum, wt) == (2, 1):
+                if i + 8 > len(b):
+                    raise _Reject()
+                f[2] = int.from_bytes(b[i:i + 8], "little")
+                i += 8
+            elif fnum in (3, 4, 5, 6) and wt == 2:
+                f[fnum], i = _rd_len(b, i)
+            else:
+                i = _skip(b, i, wt, fnum)
+    except _Reject:
+        return None
+    if 1 not in f or 2 not in f:
+        return None
+    return (f[1], f[2], f.get(3), f.get(4), f.get(5), f.get(6), f.get(7))
+
+
+def _spec(v):
+    return "~" if v is None else ("-" if len(v) == 0 else v.hex())
+
+
+def _show_parsed(r):
+    if r is None:
+        return "parsed:reject"
+    return "parsed:%d:%d:%s:%s:%s:%s:%s" % (r[0], r[1], _spec(r[2]), _spec(r[3]), _spec(r[4]), _spec(r[5]), "~" if r[6] is None else str(r[6]))
+
+
+def wire_oracle(case, lines):
+    """SER must give the reference encoding, WIRE the reference decoding; and parse(ser(m)) = m on the implementation"""
+    bad = []
+    for idx, op in enumerate(case.ops):
+        t = op.split()
+        if t[0] not in ("SER", "WIRE"):
+            continue
+        m = LINE.match(lines[idx + 1]) if idx + 1 < len(lines) else None
+        got = m.group(2) if m else None
+        if t[0] == "SER":
+            f = [None if x == "~" else (b"" if x == "-" else bytes.fromhex(x)) for x in t[3:7]]
+            want = "wire:" + py_ser(int(t[1]), int(t[2]), f[0], f[1], f[2], f[3], None if t[7] == "~" else int(t[7])).hex()
+        else:
+            want = _show_parsed(py_parse(b"" if t[1] == "-" else bytes.fromhex(t[1])))
+        if got != want:
+            bad.append((idx, "wire-format", "op %r: implementation %s, reference %s" % (op, got, want)))
+    return bad
+
+
+def rand_msg(rng):
+    def bs():
+        n = rng.choice([0, 1, 2, 5, 127, 128, 129, 300]) if rng.random() < 0.3 else rng.randint(0, 12)
+        return bytes(rng.randrange(256) for _ in range(n))
+    opt = lambda: bs() if rng.random() < 0.6 else None
+    mid = rng.choice([0, 1, 127, 128, 255, 256, (1 << 31), (1 << 32) - 1, (1 << 32), (1 << 63) - 1, (1 << 63), (1 << 64) - 1,
+                      rng.randrange(1 << 64)])
+    return (rng.choice([1, 2, 3]), mid, opt(), opt(), opt(), opt(), rng.choice([None, None, 0, 1, 2, 3, 4, 5, 6]))
+
+
+def gen_wire(rng, tier):
+    """RpcMessage bytes: canonical encodings and everything a decoder must cope with"""
+    def unknown_field():
+        fn = rng.choice([8, 9, 15, 16, 100, 2047, (1 << 28)])
+        x = rng.random()
+        if x < 0.25:
+            return py_varint(fn * 8) + py_varint(rng.choice([0, 1, 300, (1 << 64) - 1]))
+        if x < 0.45:
+            return py_varint(fn * 8 + 1) + bytes(rng.randrange(256) for _ in range(8))
+        if x < 0.65:
+            b = bytes(rng.randrange(256) for _ in range(rng.randint(0, 6)))
+            return py_varint(fn * 8 + 2) + py_varint(len(b)) + b
+        if x < 0.8:
+            return py_varint(fn * 8 + 5) + bytes(rng.randrange(256) for _ in range(4))
+        inner = b"".join(unknown_field() for _ in range(rng.randint(0, 2))) if rng.random() < 0.7 else b""
+        return py_varint(fn * 8 + 3) + inner + py_varint(fn * 8 + 4)
+
+    def fields_of(m):
+        t, mid, svc, meth, req, resp, err = m
+        fs = [b"\x08" + py_varint(t), b"\x11" + mid.to_bytes(8, "little")]
+        for num, v in ((3, svc), (4, meth), (5, req), (6, resp)):
+            if v is not None:
+                fs.append(bytes([num * 8 + 2]) + py_varint(len(v)) + v)
+        if err is not None:
+            fs.append(b"\x38" + py_varint(err))
+        return fs
+
+    def hexs(b):
+        return b.hex() if b else "-"
+    count = 400 if tier == "quick" else 20000
+    ops = []
+    n = 0
+    fixed = [b"", b"\x00", b"\x08", b"\x08\x01", b"\x11" + bytes(8), b"\x08\x01\x11" + bytes(7), b"\x0c", b"\x0b\x0c\x08\x01\x11" + bytes(8),
+             b"\x08\x01\x11" + bytes(8) + b"\x0e", b"\x08\x01\x11" + bytes(8) + b"\x0f", b"\x08\x01\x11" + bytes(8) + b"\x04",
+             b"\x08\x81\x80\x80\x80\x10\x11" + bytes(8), b"\x08\xff\xff\xff\xff\xff\xff\xff\xff\xff\x01\x11" + bytes(8),
+             b"\x08\x01\x11" + bytes(8) + b"\x1a\x80\x80\x80\x80\x08", b"\x08\x01\x11" + bytes(8) + b"\x1a\x81\x80\x80\x80\x00a",
+             b"\x88\x80\x80\x80\x10\x01\x11" + bytes(8), b"\x88\x80\x80\x80\x80\x00\x01\x11" + bytes(8),
+             b"\x08\x01\x11" + bytes(8) + b"\x38\x07", b"\x08\x01\x11" + bytes(8) + b"\x38\xff\xff\xff\xff\x0f",
+             b"\x09" + bytes(8) + b"\x10\x01", b"\x08\x01\x11" + bytes(8) + b"\x18\x05\x25" + bytes(4)]
+    for b in fixed:
+        ops.append("WIRE " + hexs(b))
+    for j in range(count):
+        m = rand_msg(rng)
+        t, mid, svc, meth, req, resp, err = m
+        ops.append("SER %d %d %s %s %s %s %s" % (t, mid, _spec(svc), _spec(meth), _spec(req), _spec(resp), "~" if err is None else str(err)))
+        canon = py_ser(*m)
+        ops.append("WIRE " + hexs(canon))
+        fs = fields_of(m)
+        x = rng.random()
+        if x < 0.2:
+            rng.shuffle(fs)
+            ops.append("WIRE " + hexs(b"".join(fs)))                       # any order
+        elif x < 0.35:
+            fs.insert(rng.randrange(len(fs) + 1), rng.choice(fields_of(rand_msg(rng))))
+            ops.append("WIRE " + hexs(b"".join(fs)))                       # a field twice: the last one wins
+        elif x < 0.55:
+            for _ in range(rng.randint(1, 3)):
+                fs.insert(rng.randrange(len(fs) + 1), unknown_field())
+            ops.append("WIRE " + hexs(b"".join(fs)))                       # unknown fields of every wire type, groups
+        elif x < 0.65:
+            k = rng.randrange(len(fs))
+            fn = fs[k][0] >> 3
+            wrong = rng.choice([w for w in (0, 1, 2, 5) if w != (fs[k][0] & 7)])
+            body = {0: py_varint(rng.randrange(1 << 20)), 1: bytes(8), 2: b"\x01a", 5: bytes(4)}[wrong]
+            fs.insert(k, bytes([fn * 8 + wrong]) + body)
+            ops.append("WIRE " + hexs(b"".join(fs)))                       # a known field with another wire type
+        elif x < 0.72:
+            v = rng.choice([0, 4, 7, 100, (1 << 32) + 1, (1 << 32) + 7, (1 << 64) - 1, (1 << 31)])
+            fs.append(rng.choice([b"\x08", b"\x38"]) + py_varint(v))
+            ops.append("WIRE " + hexs(b"".join(fs)))                       # enum values that are no enumerators / truncate to one
+        elif x < 0.85:
+            ops.append("WIRE " + hexs(canon[:rng.randrange(len(canon))]))  # truncated
+        elif x < 0.95:
+            bb = bytearray(canon)
+            for _ in range(rng.randint(1, 2)):
+                bb[rng.randrange(len(bb))] = rng.randrange(256)
+            ops.append("WIRE " + hexs(bytes(bb)))                          # corrupted bytes
+        else:
+            ops.append("WIRE " + hexs(bytes(rng.randrange(256) for _ in range(rng.randint(1, 24)))))
+        if len(ops) >= 40:
+            n += 1
+            yield vlib.Case("wire%d" % n, "svc=0", ops, "wire-format")
+            ops = []
+    if ops:
+        yield vlib.Case("wire%d" % (n + 1), "svc=0", ops, "wire-format")
+
+
 def load_cases(path, tagname, prefix=""):
     cases, cid, header, ops = [], None, "", []
     for line in open(path):
@@ -709,6 +946,8 @@ def nontrivial(case, lines):
             ev.add("immediate")
         if k == "DOWN" and m.group(1) == "ok":
             ev.add("down")
+        if k in ("SER", "WIRE"):
+            ev.add("wire-" + ("reject" if "parsed:reject" in evs else "accept" if k == "WIRE" else "ser") + "-%d" % (len(op) % 7))
         if "drop" in kinds:
             ev.add("destroyed-with-outstanding")
         if "leak" in kinds:
@@ -747,7 +986,7 @@ def run(chk, replay=None):
         cases = []
         for f in sorted(glob.glob(os.path.join(vlib.ROOT, "corpus", "C19", "*.case"))):
             cases += load_cases(f, "corpus", prefix="corpus_" + os.path.basename(f)[:-5] + "_")
-        for g in (gen_immediate, gen_null_response, gen_permutations, gen_threads, gen_burst, gen_server, gen_down):
+        for g in (gen_immediate, gen_null_response, gen_permutations, gen_threads, gen_burst, gen_server, gen_down, gen_wire):
             cases += list(g(rng, tier))
     hist = {}
     for c in cases:
@@ -788,7 +1027,7 @@ def run(chk, replay=None):
         if li is None:
             oracle_bad.append((c, 0, "no-output", "no implementation output"))
             continue
-        for (idx, key, msg) in oracle(c, li):
+        for (idx, key, msg) in oracle(c, li) + wire_oracle(c, li):
             if key == OBS_KEY_NULLRESP:
                 observed.append((c, idx, msg))          # out-of-contract call in an obs=1 case: counted, never reported
             elif any(k["key"] == key for k in known):
@@ -814,11 +1053,13 @@ def run(chk, replay=None):
                        "the history has >= 2 calls outstanding at once, an out-of-order / ignored / corrupt / error response, a foreign-thread "
                        "micro-step, a burst, or a server reply; distinct by (op-kind sequence, event set, final line)")
     chk.cov["tier_adds"] = ("quick: permutations of <= 5 calls exhaustively, 600 sampled 3-thread interleavings, 1500/1500/2000/300 random "
-                            "histories per family" if tier == "quick" else
+                            "histories per family, 400 RpcMessage encodings with one variant each" if tier == "quick" else
                             "thorough: ALL permutations of the responses to <= 7 outstanding calls (5913 plain histories), ALL interleavings of "
                             "2 threads x 1 call, 3 threads x 1 call (1680) and 2 threads x 2 calls (924), 5000 sampled 4-thread interleavings, "
                             "60000 random orders for 6..8 calls, 60000 random thread programs, 80000 random server histories, 15000 histories "
-                            "with a connection DOWN, bursts of up to 6 threads x 60 concurrent calls (100 repetitions)")
+                            "with a connection DOWN, bursts of up to 6 threads x 60 concurrent calls (100 repetitions), 20000 RpcMessage encodings "
+                            "each with its canonical decoding and one reordered / duplicated / unknown-field / wrong-wire-type / bad-enum / truncated / "
+                            "corrupted / random variant")
     chk.cov["traces_validated_against_impl"] = len(cases) - len(corr_bad)
     chk.add_obligation("correspondence: extracted C19_Model.step == muduo::net::RpcChannel on every op of every case (events, id_, outstandings_, pending callbacks)", not corr_bad)
     chk.add_obligation("oracle: the property text on the implementation's own trace", not oracle_bad)
@@ -834,7 +1075,9 @@ def run(chk, replay=None):
                 "harness/C19_rpcchannel.cc + C19_atomic_hook.h (the tree's RpcChannel.cc compiled in the driver with the two atomic "
                 "builtins of Atomic.h routed through a hook: a helper is parked before a second atomic access to id_), "
                 "#define private public, ASan poisoning as the observation of `delete response`",
-                "lib/gen_C19.py + lib/cxxast.py (clang 14 JSON AST -> coq/Gen_C19.v; every fact echoes the matched source text)",
+                "lib/gen_C19.py + lib/cxxast.py (clang 14 JSON AST and rpc.proto -> coq/Gen_C19.v; every fact echoes the matched source text)",
+                "RpcMessage wire format: three implementations compared op by op (protobuf 3.21 ParsePartialFromString+IsInitialized / "
+                "SerializeAsString, the extracted C19_Wire, the Python reference codec in lib/props/C19.py)",
                 "protobuf 3.21: ParseFromString(SerializeAsString(m)) = m and rejection of the X payloads (checked by the driver on every use)",
                 "harness/C19_test.proto + protoc-generated stub/service; the test service (Echo answers at once, Defer later) is user code")
     chk.notes.append("the model takes id_.incrementAndGet() as one atomic step: tied by the generated fact CallMethod_id_fetch_atomic "
@@ -881,7 +1124,7 @@ def run(chk, replay=None):
                 return key == "crash"
             if li is None:
                 return key == "no-output"
-            return any(k == key for (_, k, _) in oracle(cc, li))
+            return any(k == key for (_, k, _) in oracle(cc, li) + wire_oracle(cc, li))
         small = shrink(c, pred)
         nfail = len(set(x[0].cid for x in oracle_bad if x[2] == key))
         p = chk.write_replay("oracle_%s_%s.case" % (key, c.cid), "# key=%s\n# %s\n" % (key, msg.replace("\n", "\n# ")) + small.text())
@@ -903,5 +1146,7 @@ def run(chk, replay=None):
         "id_.incrementAndGet() is one atomic read-modify-write and a MutexLockGuard section is atomic w.r.t. other sections (DESIGN 3.2/3.3)",
         "int64 ids do not wrap (2^63 calls on one channel)",
         "no closure object is passed to two CallMethod invocations; a service runs its done callback at most once (one-shot closures)",
-        "protobuf: ParseFromString(SerializeAsString(m)) = m; what a failed parse leaves in the object is unspecified",
+        "protobuf, user message types: ParseFromString(SerializeAsString(m)) = m; what a failed parse leaves in the object is unspecified "
+        "(for RpcMessage itself the round trip is proved about C19_Wire and C19_Wire is compared with protobuf)",
+        "TcpConnection: exactly one DOWN per connection, no message delivered after it, send() on a connection that is not kConnected does nothing (C02/C01)",
         "the model is tied to the code by differential execution (testing), not by a verified C++ semantics"])
